@@ -115,14 +115,16 @@ Definition outputs_atoms (o : option (list (string * list expr))) : list (string
   end.
 
 (* evaluate the skeleton in Q, consuming one supplied value per atom *)
-Fixpoint ev (e : expr) (vals : list Q) {struct e} : option (Q * list Q) :=
-  let ev_sum := fix go (l : list expr) (vals : list Q) {struct l} : option (Q * list Q) :=
+Definition ev_sum (ev : expr -> list Q -> option (Q * list Q)) : list expr -> list Q -> option (Q * list Q) :=
+  fix go (l : list expr) (vals : list Q) {struct l} : option (Q * list Q) :=
     match l with
     | [] => Some (0%Q, vals)
     | x :: r => match ev x vals with
                 | Some (a, v1) => match go r v1 with Some (b, v2) => Some (Qred (a + b)%Q, v2) | None => None end
                 | None => None end
-    end in
+    end.
+
+Fixpoint ev (e : expr) (vals : list Q) {struct e} : option (Q * list Q) :=
   match e with
   | Add a b => match ev a vals with
                | Some (x, v1) => match ev b v1 with Some (y, v2) => Some (Qred (x + y)%Q, v2) | None => None end
@@ -131,14 +133,22 @@ Fixpoint ev (e : expr) (vals : list Q) {struct e} : option (Q * list Q) :=
                | Some (x, v1) => match ev b v1 with Some (y, v2) => Some (Qred (x - y)%Q, v2) | None => None end
                | None => None end
   | Neg a => match ev a vals with Some (x, v1) => Some ((- x)%Q, v1) | None => None end
-  | SumL l => ev_sum l vals
-  | MeanL l => match l with
-               | [] => None                                     (* mean of an empty tensor is nan *)
-               | _ => match ev_sum l vals with
-                      | Some (s, v1) => Some (Qred (s / inject_Z (Z.of_nat (length l)))%Q, v1)
-                      | None => None end
-               end
+  | SumL l => ev_sum ev l vals
+  | MeanL l => match ev_sum ev l vals with       (* batches are non-empty; in Q, x / 0 = 0 *)
+               | Some (s, v1) => Some (Qred (s / inject_Z (Z.of_nat (length l)))%Q, v1)
+               | None => None end
   | _ => match vals with v :: r => Some (v, r) | [] => None end
+  end.
+
+(* the value of a formula when arithmetic is exact rational arithmetic and every primitive atom a has the value phi a *)
+Fixpoint denoteQ (phi : expr -> Q) (e : expr) : Q :=
+  match e with
+  | Add a b => (denoteQ phi a + denoteQ phi b)%Q
+  | Sub a b => (denoteQ phi a - denoteQ phi b)%Q
+  | Neg a => (- denoteQ phi a)%Q
+  | SumL l => fold_right (fun x acc => (denoteQ phi x + acc)%Q) 0%Q l
+  | MeanL l => (fold_right (fun x acc => (denoteQ phi x + acc)%Q) 0%Q l / inject_Z (Z.of_nat (length l)))%Q
+  | other => phi other
   end.
 
 Definition tol : Q := (1 # 10000)%Q.
